@@ -356,13 +356,32 @@ def rule_r4(prog, res):
                             'is None": falsy values of the wrong kind ([] {} '
                             '0 False) bypass the kind check and reach user '
                             'code' % tt[:60])
-    t = unparse(v.node)
-    ok = 'VALID_UNICODE_SOURCES' in t and 'raise ValidationError' in t
-    res.ob('R4', v.where, 'validate rejects non-text values for Unicode',
-           'ok' if ok else 'VIOLATED')
-    if not ok:
-        res.finding('R4', 'HierDictDocument.validate|unicode-kind', v.where,
-                    'the kind check for Unicode members is gone')
+    # the classes whose reader can hand the document value through unchanged
+    # (text as it is; bytes under the identity encoding) need a kind test
+    for kind, key in (('Unicode', 'unicode-kind'), ('ByteArray',
+                                                    'bytearray-kind')):
+        hit = None
+        for r in walk_no_defs(v.node):
+            if not isinstance(r, ast.Raise):
+                continue
+            atoms = guardspec.atoms_at(r, v.node)
+            if any(pol and t.startswith('issubclass(cls, ') and kind in t
+                   for t, pol in atoms) and any(
+                    (not pol) and t.startswith('isinstance(inst, ')
+                    for t, pol in atoms) and not any(
+                    pol and t.startswith('isinstance(inst, ')
+                    for t, pol in atoms):
+                hit = r
+        ok = hit is not None
+        res.ob('R4', v.where, 'validate rejects values of a foreign kind for '
+               '%s members' % kind, 'ok' if ok else 'VIOLATED')
+        if not ok:
+            res.finding('R4', 'HierDictDocument.validate|%s' % key, v.where,
+                        'no path of the soft kind check raises for a %s '
+                        'member whose document value fails an isinstance '
+                        'test: numbers, maps and lists reach user code in '
+                        'that slot (the identity decoder just wraps them)' %
+                        kind)
     if not found:
         res.unclass('R4', v.where, 'no nullable exemption found')
     # it is invoked from _from_dict_value under soft validation
@@ -557,6 +576,31 @@ def rule_r5(prog, res):
                     '(Uuid extends Unicode(pattern=...)) inherits that '
                     'attribute, so its parent type is accepted in its place '
                     '(xsi:type="xs:string" in a Uuid slot delivers a str)')
+    # ... and the variant factory must record the same notion of "original"
+    mb = prog.cls('spyne.model._base:ModelBase')
+    sc = mb.methods.get('_s_customize')
+    if sc is None:
+        raise AnalysisError('ModelBase._s_customize', 'not found')
+    st = [a_ for a_ in walk_no_defs(sc.node) if isinstance(a_, ast.Assign)
+          and any(isinstance(t, ast.Subscript) and isinstance(
+              t.slice, ast.Constant) and t.slice.value == '__orig__'
+              for t in a_.targets) and isinstance(a_.value, ast.Name)]
+    res.floor('R5', 'stores of the variant\'s own __orig__', len(st), 1)
+    for a_ in st:
+        atoms = guardspec.atoms_at(a_, sc.node)
+        inh = [t for t, _ in atoms if "getattr(%s, '__orig__'" % a_.value.id
+               in t or '%s.__orig__' % a_.value.id in t]
+        where = '%s:%d' % (sc.module.relpath, a_.lineno)
+        res.ob('R5', where, '_s_customize records the class itself as '
+               '__orig__ under %s' % [t for t, _ in atoms],
+               'VIOLATED' if inh else 'ok')
+        if inh:
+            res.finding('R5', 'ModelBase._s_customize|inherited-orig', where,
+                        '_s_customize decides whether a class is already a '
+                        'variant through attribute lookup (%s): a class that '
+                        'extends a customized class (Uuid) inherits __orig__, '
+                        'so Uuid(min_occurs=1) records Unicode as its '
+                        'original and its slot accepts xs:string' % inh[0])
     # the xsi:type guard handles arrays
     x = prog.cls('spyne.protocol.xml:XmlDocument').methods.get('from_element')
     used = [call_name(e) for node in walk_no_defs(x.node)
@@ -809,6 +853,17 @@ _Y = 'spyne/protocol/yaml.py'
 _C = 'spyne/model/complex.py'
 
 MUTANTS = [
+    Mutant('bytearray-kind-check-removed', 'R4', 'fire', _H,
+           in_func('HierDictDocument.validate',
+                   "elif issubclass(cls, ByteArray) and not isinstance(inst,",
+                   "elif issubclass(cls, ByteArray) and isinstance(inst, set) "
+                   "and not isinstance(inst,"), 'bytearray-kind'),
+    Mutant('variant-orig-through-inheritance', 'R5', 'fire',
+           'spyne/model/_base.py',
+           in_func('ModelBase._s_customize',
+                   "if cls.__dict__.get('__orig__', None) is None:",
+                   "if getattr(cls, '__orig__', None) is None:"),
+           'inherited-orig'),
     Mutant('aux-reuses-primary-objects', 'R9', 'fire',
            'spyne/auxproc/_base.py',
            in_func('AuxProcBase.process',
